@@ -14,7 +14,9 @@ META = {
         "(3) typestate: every path of the request-line callback with nparsed != len sends an error status exactly once and "
         "frees the connection exactly once, returning BS_CLOSED; len == 0 frees without sending; the status switch has a "
         "default and each case's text carries its own code; free_connection closes the reader before freeing the connection; "
-        "(4) the error status is chosen before on_url returns failure (every -1 return of on_url is preceded by a status store)."),
+        "(4) the error status is chosen before on_url returns failure (every -1 return of on_url is preceded by a status store); "
+        "(5) R-ORDER: callbacks taken from a url_handler are installed into the parser settings only on paths where the handler "
+        "has no create() hook or where create() has been called and did not fail (they work on the object create() makes)."),
     "not_decided": "http_parser's own parsing; memory of connections that never send a complete line (read buffer bounds: C09)",
     "assumptions": ["http_parser invokes only the callbacks installed in the connection's parser_settings"],
 }
@@ -164,6 +166,61 @@ def clause4_status(ctx, P):
            witness=bad.witness() if bad else None)
 
 
+def clause5_callbacks(ctx, P, cg):
+    """callbacks taken from a url_handler work on the object its create() hook makes (parser.data): they may be installed
+    into the parser settings only where that object exists - after create() succeeded - or where the handler has no create()"""
+    ckey = ("struct.url_handler", P.field_index("struct.url_handler", "create"))
+    installers = []
+    for f in P.own_functions():
+        for i in f.all_insts():
+            if i.op == "store":
+                dt = P.term(f, i.a[1])
+                vt = P.term(f, i.a[0])
+                if dt[0] == "field" and dt[2] == "struct.http_parser_settings" and vt[0] == "load" and vt[1][0] == "field" and vt[1][2] == "struct.url_handler":
+                    installers.append((f, i, vt[1][1]))
+    if len(installers) < 3:
+        raise AnalysisBroken("stores of url_handler callbacks into parser settings: %d" % len(installers))
+    sites = []  # (function, block, handler term)
+    seenf = set()
+    for (f, i, h) in installers:
+        if h[0] == "param":
+            if f.name in seenf:
+                continue
+            seenf.add(f.name)
+            for c in P.callers_of(f):
+                sites.append((c.fn, c, P.term(c.fn, c.a[h[1]])))
+        else:
+            sites.append((f, i, h))
+    for (g, at, h) in sites:
+        def no_create(atom, pol):
+            return atom[0] == "cmp" and atom[3] == ("null",) and atom[2] == ("load", ("field", h, "struct.url_handler", "create")) and Q._poleq(atom, pol)
+
+        def created(atom, pol):
+            if atom[0] != "cmp" or atom[2][0] != "icall" or atom[3] != ("const", 0):
+                return False
+            t = atom[2][1]
+            if not (t[0] == "load" and t[1][0] == "field" and t[1][3] == "create"):
+                return False
+            eff = atom[1] if pol else Q.negate_pred(atom[1])
+            return eff in ("sge", "eq")
+        # on every path to the installation: handler has no create(), or create() was called and did not fail
+        bad = None
+        n = 0
+        for v in Q.path_views(ctx, P, g):
+            if at.block not in v.blocks:
+                continue
+            n += 1
+            upto = v.blocks.index(at.block)
+            atoms = [(a, p) for (b, a, p) in v.path[:upto + 1] if a is not None]
+            if not (any(no_create(a, p) for a, p in atoms) or any(created(a, p) for a, p in atoms)):
+                bad = v
+        ctx.ob("C13.5 R-ORDER", g, "callbacks-after-create:" + Q.ordinal_site(g, at, P), bad is None and n > 0,
+               "the handler's header callbacks are installed on a path where its create() hook exists but has not (successfully) "
+               "run: a header arriving in the same chunk (bare LF after the request line) is handled with parser.data unset"
+               if bad else "installed only without create() or after it succeeded (%d path(s))" % n, witness=bad.witness() if bad else None)
+    ctx.floor("C13.5 R-ORDER", 2)
+
+
 def run(ctx):
     for cfg in ctx.configs(["default"] if ctx.tier == "quick" else None):
         P, cg = cfg.P, cfg.cg
@@ -171,3 +228,4 @@ def run(ctx):
         clause2_hook(ctx, P, cg)
         clause3_reject(ctx, P, cg)
         clause4_status(ctx, P)
+        clause5_callbacks(ctx, P, cg)
